@@ -76,6 +76,9 @@ def AtPlace (c : Cfg) (m : Nat) (b : ModIn ℝ) : Prop := (c m 0).x = b.trunk.x 
 
 /-- the clauses that concern one module. -/
 structure LegalModule (P : Params ℝ) (c : Cfg) (m : Nat) (M : InModule ℝ) : Prop where
+  /-- a legal floorplan consists of boxes of positive width and height (NOT forced by the equations, see the
+      NOT CLAIMED block below: it is GEKKO's variable bound `lb = 0.1`). -/
+  positive : ∀ i < (split M.rects).c, 0 < (c m i).w ∧ 0 < (c m i).h
   inDie : ∀ i < (split M.rects).c, InDie P (c m i)
   aspect : ∀ i < (split M.rects).c, AspectOK P.r (c m i)
   area : M.area ≤ areaSum c m (split M.rects).c
@@ -340,6 +343,7 @@ theorem rawModule_iff (P : Params ℝ) (c : Cfg) (m : Nat) (M : InModule ℝ)
   constructor
   · rintro ⟨⟨h1, h2, h3⟩, h4⟩
     exact {
+      positive := hpos
       inDie := fun i hi => ((rectRaw_iff P _ (hpos i hi).1 (hpos i hi).2).mp (h1 i hi)).1
       aspect := fun i hi => ((rectRaw_iff P _ (hpos i hi).1 (hpos i hi).2).mp (h1 i hi)).2
       area := h4
@@ -357,7 +361,7 @@ theorem tau_nonneg (P : Params ℝ) (n : Nat) (hdw : 0 ≤ P.dw) (hdh : 0 ≤ P.
   simp only [hundredth_eq]
   positivity
 
-/-- **Soundness.**  A configuration (positive sizes) that satisfies every generated equation is a legal
+/-- **Soundness (for boxes of positive size).**  A configuration with `0 < w, 0 < h` everywhere (`Pos`) that satisfies every generated equation is a legal
     floorplan, different modules overlapping in an area of at most the smoothing constant
     `τ = 0.01 · min(dw, dh) / #modules`. -/
 theorem system_sound (P : Params ℝ) (mods : List (InModule ℝ)) (c : Cfg)
@@ -374,13 +378,14 @@ theorem system_sound (P : Params ℝ) (mods : List (InModule ℝ)) (c : Cfg)
     noOverlap := fun m n Mm Mn hmn hMm hMn i hi j hj =>
       interRaw_sound _ (tau_nonneg P _ hdw hdh) _ _ (hraw.2 m n Mm Mn hmn hMm hMn i hi j hj) }
 
-/-- **Completeness.**  Every legal floorplan (no overlap between different modules) satisfies every
+/-- **Completeness.**  Every legal floorplan (positive sizes are part of `Legal`; no overlap between different modules) satisfies every
     generated equation — provided `netlist_to_utils` accepts the netlist (at least one module, fixed
     modules are hard), in which case the equations exist. -/
 theorem system_complete (P : Params ℝ) (mods : List (InModule ℝ)) (c : Cfg)
-    (hr : 1 ≤ P.r) (hpos : Pos mods c) (hne : mods ≠ [])
+    (hr : 1 ≤ P.r) (hne : mods ≠ [])
     (hfh : ∀ M ∈ mods, M.fixed = true → M.hard = true)
     (h : Legal 0 P mods c) : AllEquationsHold P mods c := by
+  have hpos : Pos mods c := fun m M hM => (h.modules m M hM).positive
   obtain ⟨U, es, hU, hg⟩ := gen_ok P mods hne hfh
   refine ⟨U, es, hU, hg, (gen_iff P mods U es c hU hg hr hpos).mpr ⟨fun m M hM => ?_, ?_⟩⟩
   · have hm := (rawModule_iff P c m M (hpos m M hM)).mpr (h.modules m M hM)
@@ -404,10 +409,10 @@ structure LegalInput (P : Params ℝ) (mods : List (InModule ℝ)) : Prop where
 
 /-- **In particular** the input configuration of an already legal floorplan satisfies the system. -/
 theorem input_satisfies (P : Params ℝ) (mods : List (InModule ℝ))
-    (hr : 1 ≤ P.r) (hpos : Pos mods (inputCfg mods)) (hne : mods ≠ [])
+    (hr : 1 ≤ P.r) (hne : mods ≠ [])
     (hfh : ∀ M ∈ mods, M.fixed = true → M.hard = true)
     (h : LegalInput P mods) : AllEquationsHold P mods (inputCfg mods) := by
-  refine system_complete P mods _ hr hpos hne hfh
+  refine system_complete P mods _ hr hne hfh
     { modules := h.modules, noOverlap := h.noOverlap, hard := ?_, fixed := ?_ }
   · intro m M hM _
     unfold Rigid inputCfg
@@ -495,6 +500,7 @@ def NoOverlapS (τ δ : ℝ) (p q : Box ℝ) : Prop :=
   ovX p q ^ 2 ≤ δ ∨ ovY p q ^ 2 ≤ δ ∨ (ovX p q ^ 2 - δ) * (ovY p q ^ 2 - δ) ≤ τ ^ 2
 
 structure LegalModuleS (P : Params ℝ) (δ : ℝ) (c : Cfg) (m : Nat) (M : InModule ℝ) : Prop where
+  positive : ∀ i < (split M.rects).c, 0 < (c m i).w ∧ 0 < (c m i).h
   inDie : ∀ i < (split M.rects).c, InDieS P δ (c m i)
   aspect : ∀ i < (split M.rects).c, AspectS P.r δ (c m i)
   area : M.area - δ ≤ areaSum c m (split M.rects).c
@@ -646,6 +652,7 @@ theorem system_sound_slack (P : Params ℝ) (mods : List (InModule ℝ)) (c : Cf
     have hb := fun i hi => (bounds_met_iff P c e t m i (hpos m M hM i hi).1 (hpos m M hM i hi).2).mp
       ((rectEqs_met_iff P c e t m i (hpos m M hM i hi).1 (hpos m M hM i hi).2).mpr (h1 i hi))
     exact {
+      positive := hpos m M hM
       inDie := fun i hi => (hb i hi).1
       aspect := fun i hi => (hb i hi).2
       area := by linarith
@@ -661,10 +668,10 @@ theorem system_sound_slack (P : Params ℝ) (mods : List (InModule ℝ)) (c : Cf
 /-- **Completeness carries over to `is_equation_met()`**: a legal floorplan is reported met for every
     slack `e ≥ 0` and constant `t ≥ 0`. -/
 theorem system_complete_slack (P : Params ℝ) (mods : List (InModule ℝ)) (c : Cfg) (e t : ℝ)
-    (he : 0 ≤ e) (ht : 0 ≤ t) (hr : 1 ≤ P.r) (hpos : Pos mods c) (hne : mods ≠ [])
+    (he : 0 ≤ e) (ht : 0 ≤ t) (hr : 1 ≤ P.r) (hne : mods ≠ [])
     (hfh : ∀ M ∈ mods, M.fixed = true → M.hard = true)
     (h : Legal 0 P mods c) : AllMet P mods c e t := by
-  obtain ⟨U, es, hU, hg, hall⟩ := system_complete P mods c hr hpos hne hfh h
+  obtain ⟨U, es, hU, hg, hall⟩ := system_complete P mods c hr hne hfh h
   exact ⟨U, es, hU, hg, fun q hq => met_of_holds c e t he ht q (hall q hq)⟩
 
 /-- with no slack at all the relaxed no-overlap clause is the overlap-area bound. -/
@@ -681,6 +688,111 @@ theorem noOverlapS_zero (τ : ℝ) (hτ : 0 ≤ τ) (p q : Box ℝ) (h : NoOverl
     rw [this, mul_zero]; exact hτ
   · have : (ovX p q * ovY p q) ^ 2 ≤ τ ^ 2 := by nlinarith
     exact (pow_le_pow_iff_left₀ (by positivity) hτ (by norm_num)).mp this
+
+
+/-- the slack `is_equation_met()` actually uses is `epsilon.evaluate()`: the plain value of the slack tree, or
+    `0` below `1e-6`; it is non-negative whenever the plain value is, so the slack theorems apply to it. -/
+theorem slack_value_nonneg (thr raw : ℝ) (h : 0 ≤ raw) : 0 ≤ epsValue thr raw ∧ epsValue thr raw ≤ raw := by
+  unfold epsValue; split <;> simp [h]
+
+/-! ### rejection with a margin: a clause missed by more than `δ = e + t` makes `is_equation_met()` fail somewhere
+
+One theorem per clause family ("configurations violating exactly one legality clause by a clear margin" of the
+property): the hypothesis says by how much the clause is missed, the conclusion is that not every equation is
+reported met at slack `e` and constant `t`.  All are corollaries of `system_sound_slack`, for positive boxes. -/
+
+theorem reject_outside_die (P : Params ℝ) (mods : List (InModule ℝ)) (c : Cfg) (e t : ℝ)
+    (he : 0 ≤ e) (ht : 0 ≤ t) (hpos : Pos mods c) (m : Nat) (M : InModule ℝ) (i : Nat)
+    (hM : mods[m]? = some M) (hi : i < (split M.rects).c)
+    (hv : xmin (c m i) < -(e + t) ∨ ymin (c m i) < -(e + t) ∨ P.dw + (e + t) < xmax (c m i) ∨
+      P.dh + (e + t) < ymax (c m i)) : ¬ AllMet P mods c e t := by
+  intro h
+  have := ((system_sound_slack P mods c e t he ht hpos h).modules m M hM).inDie i hi
+  unfold InDieS at this
+  rcases hv with hv | hv | hv | hv <;> linarith [this.1, this.2.1, this.2.2.1, this.2.2.2]
+
+theorem reject_aspect (P : Params ℝ) (mods : List (InModule ℝ)) (c : Cfg) (e t : ℝ)
+    (he : 0 ≤ e) (ht : 0 ≤ t) (hpos : Pos mods c) (m : Nat) (M : InModule ℝ) (i : Nat)
+    (hM : mods[m]? = some M) (hi : i < (split M.rects).c)
+    (hv : thinV (c m i).w (c m i).h * 10 < thinV P.r 1 * 10 - (e + t)) : ¬ AllMet P mods c e t := by
+  intro h
+  have := ((system_sound_slack P mods c e t he ht hpos h).modules m M hM).aspect i hi
+  unfold AspectS at this; linarith
+
+theorem reject_area (P : Params ℝ) (mods : List (InModule ℝ)) (c : Cfg) (e t : ℝ)
+    (he : 0 ≤ e) (ht : 0 ≤ t) (hpos : Pos mods c) (m : Nat) (M : InModule ℝ)
+    (hM : mods[m]? = some M)
+    (hv : areaSum c m (split M.rects).c < M.area - (e + t)) : ¬ AllMet P mods c e t := by
+  intro h
+  have := ((system_sound_slack P mods c e t he ht hpos h).modules m M hM).area
+  linarith
+
+theorem reject_detached (P : Params ℝ) (mods : List (InModule ℝ)) (c : Cfg) (e t : ℝ)
+    (he : 0 ≤ e) (ht : 0 ≤ t) (hpos : Pos mods c) (m : Nat) (M : InModule ℝ) (i : Nat) (s : Loc) (q : Box ℝ)
+    (hM : mods[m]? = some M) (hs : (i, s, q) ∈ (split M.rects).sided)
+    (hv : ¬ AttachedS (e + t) s (c m 0) (c m i)) : ¬ AllMet P mods c e t := fun h =>
+  hv (((system_sound_slack P mods c e t he ht hpos h).modules m M hM).attached i s q hs)
+
+theorem reject_disordered (P : Params ℝ) (mods : List (InModule ℝ)) (c : Cfg) (e t : ℝ)
+    (he : 0 ≤ e) (ht : 0 ≤ t) (hpos : Pos mods c) (m : Nat) (M : InModule ℝ)
+    (hM : mods[m]? = some M)
+    (hv : ¬ SidesChainS c (e + t) m (split M.rects)) : ¬ AllMet P mods c e t := fun h =>
+  hv ((system_sound_slack P mods c e t he ht hpos h).modules m M hM).ordered
+
+theorem reject_overlap (P : Params ℝ) (mods : List (InModule ℝ)) (c : Cfg) (e t : ℝ)
+    (he : 0 ≤ e) (ht : 0 ≤ t) (hpos : Pos mods c) (m n : Nat) (Mm Mn : InModule ℝ) (i j : Nat)
+    (hmn : m < n) (hMm : mods[m]? = some Mm) (hMn : mods[n]? = some Mn)
+    (hi : i < (split Mm.rects).c) (hj : j < (split Mn.rects).c)
+    (hv : e + t < ovX (c m i) (c n j) ^ 2 ∧ e + t < ovY (c m i) (c n j) ^ 2 ∧
+      tauV P mods.length ^ 2 < (ovX (c m i) (c n j) ^ 2 - (e + t)) * (ovY (c m i) (c n j) ^ 2 - (e + t))) :
+    ¬ AllMet P mods c e t := by
+  intro h
+  have := (system_sound_slack P mods c e t he ht hpos h).noOverlap m n Mm Mn hmn hMm hMn i hi j hj
+  unfold NoOverlapS at this
+  rcases this with h1 | h1 | h1 <;> linarith [hv.1, hv.2.1, hv.2.2]
+
+theorem reject_hard_deformed (P : Params ℝ) (mods : List (InModule ℝ)) (c : Cfg) (e t : ℝ)
+    (he : 0 ≤ e) (ht : 0 ≤ t) (hpos : Pos mods c) (m : Nat) (M : InModule ℝ)
+    (hM : mods[m]? = some M) (hh : M.hard = true)
+    (hv : ¬ RigidS c (e + t) m (split M.rects)) : ¬ AllMet P mods c e t := fun h =>
+  hv ((system_sound_slack P mods c e t he ht hpos h).hard m M hM hh)
+
+/-- in particular a hard module whose trunk is resized by more than `δ`. -/
+theorem reject_hard_resized (P : Params ℝ) (mods : List (InModule ℝ)) (c : Cfg) (e t : ℝ)
+    (he : 0 ≤ e) (ht : 0 ≤ t) (hpos : Pos mods c) (m : Nat) (M : InModule ℝ)
+    (hM : mods[m]? = some M) (hh : M.hard = true)
+    (hv : e + t < |(c m 0).w - (split M.rects).trunk.w| ∨ e + t < |(c m 0).h - (split M.rects).trunk.h|) :
+    ¬ AllMet P mods c e t := by
+  refine reject_hard_deformed P mods c e t he ht hpos m M hM hh (fun hr => ?_)
+  rcases hv with hv | hv
+  · linarith [hr.1.1]
+  · linarith [hr.1.2]
+
+theorem reject_fixed_moved (P : Params ℝ) (mods : List (InModule ℝ)) (c : Cfg) (e t : ℝ)
+    (he : 0 ≤ e) (ht : 0 ≤ t) (hpos : Pos mods c) (m : Nat) (M : InModule ℝ)
+    (hM : mods[m]? = some M) (hf : M.fixed = true)
+    (hv : e + t < |(c m 0).x - (split M.rects).trunk.x| ∨ e + t < |(c m 0).y - (split M.rects).trunk.y|) :
+    ¬ AllMet P mods c e t := by
+  intro h
+  have := (system_sound_slack P mods c e t he ht hpos h).fixed m M hM hf
+  rcases hv with hv | hv
+  · linarith [this.1]
+  · linarith [this.2]
+
+/-!
+### NOT CLAIMED — positive sizes are not a consequence of the equations
+
+Every statement above that goes from the equations to legality (`system_sound`, `system_sound_slack`, the
+`reject_*` theorems, `bounds_iff`, `ratio_iff`) assumes `Pos` / `0 < w`, `0 < h`, and `Legal` / `LegalS` carry the
+field `positive`.  The equations alone do NOT force it for soft modules: the ratio equation only gives `w · h > 0`
+and the no-overlap equation only sees `(w₁ + w₂)²`.  Witness on the real code (audit3_scratch/C09/neg.py): die
+10×10, ratio 3, soft `A = (7, 7, -2, -2)` placed exactly on top of soft `B = (7, 7, 2, 2)`: `is_equation_met()` is
+`True` for every equation (Bounds: 8 ≥ 0, 6 ≤ 10; ratio: thin(-2,-2) = ½; Area: (-2)(-2) = 4; Inter:
+`(w₁ + w₂)² = 0`, so `tX = tY = 0`).  What excludes such configurations in the tool is the variable bound
+`lb = 0.1` that `_define_vars` gives `w` and `h` in GEKKO — outside the equation system, reported by the harness as
+`variable_bounds_lb_on_w_h`, not part of this property.  So the equivalence proved here is:
+for configurations of boxes with positive width and height, `Legal 0 ⊆ Sat ⊆ Legal τ`.
+-/
 
 /-! ### non-vacuity: a two-module floorplan (a fixed 4×2 trunk with a 2×2 north branch, and a soft 2×2) in a 10×10 die -/
 
@@ -744,6 +856,7 @@ theorem sd1 : (split M1.rects).sided = [(1, Loc.east, ⟨11,6,2,2⟩), (2, Loc.e
 theorem sd2 : (split M2.rects).sided = [] := by simp [s2, ModIn.sided, idxFrom]
 
 theorem lm0 : LegalModule P (inputCfg mods) 0 M0 where
+  positive := hpos 0 M0 (by simp [mods])
   inDie := by
     intro i hi; rw [k0] at hi
     interval_cases i <;> simp [c00, c01, InDie, xmin, xmax, ymin, ymax, P] <;> norm_num
@@ -759,6 +872,7 @@ theorem lm0 : LegalModule P (inputCfg mods) 0 M0 where
     simp [SidesOrdered, SideOrdered, ModIn.side, sd0, sortBy, insBy]
 
 theorem lm1 : LegalModule P (inputCfg mods) 1 M1 where
+  positive := hpos 1 M1 (by simp [mods])
   inDie := by
     intro i hi; rw [k1] at hi
     interval_cases i <;> simp [c10, c11, c12, InDie, xmin, xmax, ymin, ymax, P] <;> norm_num
@@ -776,6 +890,7 @@ theorem lm1 : LegalModule P (inputCfg mods) 1 M1 where
     rw [if_pos (by norm_num)]; simp [c11, c12]; norm_num
 
 theorem lm2 : LegalModule P (inputCfg mods) 2 M2 where
+  positive := hpos 2 M2 (by simp [mods])
   inDie := by
     intro i hi; rw [k2] at hi
     interval_cases i <;> simp [c20, InDie, xmin, xmax, ymin, ymax, P] <;> norm_num
@@ -813,7 +928,7 @@ theorem hfh : ∀ M ∈ mods, M.fixed = true → M.hard = true := by
 
 /-- input_satisfies applied to the concrete witness -/
 theorem W_input : AllEquationsHold P mods (inputCfg mods) :=
-  input_satisfies P mods (by norm_num [P]) hpos (by simp [mods]) hfh legalInput
+  input_satisfies P mods (by norm_num [P]) (by simp [mods]) hfh legalInput
 
 /-- system_sound applied to the concrete witness (hypothesis AllEquationsHold is satisfiable) -/
 theorem W_sound : Legal (tauV P mods.length) P mods (inputCfg mods) :=
@@ -843,7 +958,7 @@ end
 noncomputable section
 /-- what `is_equation_met()` reports on the legal input, for the annealing slack 0.3 and the code's 1e-6. -/
 theorem W_met : AllMet P mods (inputCfg mods) (3 / 10) (1 / 1000000) :=
-  system_complete_slack P mods _ _ _ (by norm_num) (by norm_num) (by norm_num [P]) hpos (by simp [mods]) hfh
+  system_complete_slack P mods _ _ _ (by norm_num) (by norm_num) (by norm_num [P]) (by simp [mods]) hfh
     { modules := legalInput.modules, noOverlap := legalInput.noOverlap,
       hard := (W_sound).hard, fixed := (W_sound).fixed }
 
@@ -859,6 +974,84 @@ theorem W_bad_met : ¬ AllMet P mods cBad 0 (1 / 1000000) := by
   simp [s2, cBad] at this
   rw [abs_le] at this
   norm_num at this
+end
+
+
+noncomputable section
+/-- the legal input with rectangle `i` of module `m` replaced by `bx`. -/
+def cMod (m i : Nat) (bx : Box ℝ) : Cfg := fun m' i' => if m' = m ∧ i' = i then bx else inputCfg mods m' i'
+
+theorem hposMod (m i : Nat) (bx : Box ℝ) (hw : 0 < bx.w) (hh : 0 < bx.h) : Pos mods (cMod m i bx) := by
+  intro m' M hM i' hi
+  by_cases h : m' = m ∧ i' = i
+  · simp [cMod, h, hw, hh]
+  · have := hpos m' M hM i' hi
+    simpa [cMod, h] using this
+
+/-- the slack `Model(...)` installs at build time (0.3 · 0.9¹ = 0.27) and the constant of the code. -/
+abbrev e0 : ℝ := 27 / 100
+abbrev t0 : ℝ := 1 / 1000000
+
+/- each rejection theorem applied once, at the real initial slack 0.27 -/
+example : ¬ AllMet P mods (cMod 1 0 ⟨-5, 4, 4, 8⟩) e0 t0 :=
+  reject_outside_die _ _ _ _ _ (by norm_num) (by norm_num) (hposMod _ _ _ (by norm_num) (by norm_num)) 1 M1 0
+    (by simp [mods]) (by rw [k1]; norm_num) (Or.inl (by simp [cMod, xmin]; norm_num))
+
+example : ¬ AllMet P mods (cMod 1 0 ⟨8, 4, 40, 1⟩) e0 t0 :=
+  reject_aspect _ _ _ _ _ (by norm_num) (by norm_num) (hposMod _ _ _ (by norm_num) (by norm_num)) 1 M1 0
+    (by simp [mods]) (by rw [k1]; norm_num) (by simp [cMod, thinV, P]; norm_num)
+
+example : ¬ AllMet P mods (cMod 1 0 ⟨8, 4, 1, 1⟩) e0 t0 :=
+  reject_area _ _ _ _ _ (by norm_num) (by norm_num) (hposMod _ _ _ (by norm_num) (by norm_num)) 1 M1
+    (by simp [mods]) (by rw [k1]; simp [areaSum, cMod, c11, c12, M1]; norm_num)
+
+example : ¬ AllMet P mods (cMod 0 1 ⟨2, 5, 2, 2⟩) e0 t0 :=
+  reject_detached _ _ _ _ _ (by norm_num) (by norm_num) (hposMod _ _ _ (by norm_num) (by norm_num)) 0 M0 1 .north ⟨2, 3, 2, 2⟩
+    (by simp [mods]) (by rw [sd0]; simp) (by
+      intro h
+      have := h.1
+      simp [cMod, c00, ymin, ymax] at this
+      rw [abs_le] at this; norm_num at this)
+
+example : ¬ AllMet P mods (cMod 2 0 ⟨8, 4, 2, 2⟩) e0 t0 :=
+  reject_overlap _ _ _ _ _ (by norm_num) (by norm_num) (hposMod _ _ _ (by norm_num) (by norm_num)) 1 2 M1 M2 0 0
+    (by norm_num) (by simp [mods]) (by simp [mods]) (by rw [k1]; norm_num) (by rw [k2]; norm_num) (by
+      have hx : ovX (cMod 2 0 ⟨8, 4, 2, 2⟩ 1 0) (cMod 2 0 ⟨8, 4, 2, 2⟩ 2 0) = 2 := by
+        simp [cMod, c10, ovX, xmin, xmax]; norm_num
+      have hy : ovY (cMod 2 0 ⟨8, 4, 2, 2⟩ 1 0) (cMod 2 0 ⟨8, 4, 2, 2⟩ 2 0) = 2 := by
+        simp [cMod, c10, ovY, ymin, ymax]; norm_num
+      rw [hx, hy, W_tau]; norm_num)
+
+example : ¬ AllMet P mods (cMod 0 0 ⟨2, 1, 5, 2⟩) e0 t0 :=
+  reject_hard_resized _ _ _ _ _ (by norm_num) (by norm_num) (hposMod _ _ _ (by norm_num) (by norm_num)) 0 M0
+    (by simp [mods]) (by simp [M0]) (Or.inl (by simp [cMod, s0]; norm_num))
+
+example : ¬ AllMet P mods cBad e0 t0 :=
+  reject_fixed_moved _ _ _ _ _ (by norm_num) (by norm_num) hposBad 2 M2 (by simp [mods]) (by simp [M2])
+    (Or.inl (by simp [s2, cBad]; norm_num))
+
+/-- the two east branches of `M1` exchanged: the original order along the side is violated. -/
+def cSwap : Cfg := fun m i =>
+  if m = 1 ∧ i = 1 then ⟨11, 2, 2, 2⟩ else if m = 1 ∧ i = 2 then ⟨11, 6, 2, 2⟩ else inputCfg mods m i
+
+theorem hposSwap : Pos mods cSwap := by
+  intro m M hM i hi
+  by_cases h1 : m = 1 ∧ i = 1
+  · simp [cSwap, h1]
+  · by_cases h2 : m = 1 ∧ i = 2
+    · simp [cSwap, h2]
+    · have := hpos m M hM i hi
+      simpa [cSwap, h1, h2] using this
+
+example : ¬ AllMet P mods cSwap e0 t0 :=
+  reject_disordered _ _ _ _ _ (by norm_num) (by norm_num) hposSwap 1 M1 (by simp [mods]) (by
+    intro h
+    have h3 := h.2.2.1
+    simp [SideChainS, ModIn.side, sd1, sortBy, insBy] at h3
+    rw [if_pos (by norm_num)] at h3
+    simp [pairs, cSwap, ymin, ymax] at h3
+    have h4 := h3 2 _ 1 _ rfl rfl rfl rfl
+    norm_num at h4)
 end
 
 end Witness
